@@ -416,3 +416,31 @@ def set_operators_unsorted_operands(t0: str, t1: str, t2: str, t3: str) -> bool:
     AB = sorted(A + B)
     return ev('except_empty') == AB and L(T['except_dup'].evaluate(XPathContext(doc))) == [len(A)] and ev('intersect_unsorted') == AB \
         and ev('except_self') == A and ev('union_empty') == AB
+
+
+# --- added after a defect reported during round 3: tails of comment / PI children are part of the string value ----------------------------
+
+@ob(budget=200, bound='element r with text, a comment and a processing instruction (each present or not) whose tails and the text of r are '
+                      'strings of length <= 1 or None, root kind Element / ElementTree: string value = concatenation of the text nodes = text + tails',
+    funcs=['elementpath/etree.py:etree_iter_strings', 'elementpath/xpath_nodes.py:string_value'])
+def comment_and_pi_tails_in_string_value(t0: Optional[str], t1: Optional[str], t2: Optional[str], wc: bool, wp: bool, doc: bool) -> bool:
+    """
+    pre: all(t is None or len(t) <= 1 for t in (t0, t1, t2))
+    post: _
+    """
+    r = ET.Element('r')
+    r.text = t0
+    want = t0 or ''
+    if wc:
+        c = ET.Comment('c')
+        c.tail = t1
+        r.append(c)
+        want += t1 or ''
+    if wp:
+        p = ET.ProcessingInstruction('p', 'q')
+        p.tail = t2
+        r.append(p)
+        want += t2 or ''
+    root = build_node_tree(ET.ElementTree(r) if doc else r)
+    elem = root if isinstance(root, ElementNode) else [c for c in root.children if isinstance(c, ElementNode)][0]
+    return root.string_value == want and elem.string_value == want and _texts(elem) == want
